@@ -543,24 +543,58 @@ def run(ctx, rep):
     # ---- C09.e: the counter protocol -----------------------------------------------------------------------------
     rep.rule("C09.e", "counter protocol: a period counts iff its counter is non-zero; positive counters are decremented by exactly one; `last` follows every snapshot")
 
-    def counter_cmp(op, k):
-        def pred(x):
-            if x[0] != "bin" or x[1] != op:
-                return False
-            a, b = x[2], x[3]
-            return b == ("const", k) and "i32" in repr(M.locals) and a[0] in ("path", "proj", "phi", "call", "unknown") or (b == ("const", k))
-        return pred
+    # decided semantically: with every i32 comparison `counter OP const` evaluated for a sample counter value c, the
+    # decrement must be reachable exactly for c > 0 and some reason push exactly for c != 0 (so `> 0` / `>= 1`, nested
+    # or separate ifs are all accepted, a changed threshold is not)
+    SAMPLES = [-3, -1, 0, 1, 2, 7]
+
+    def reach_with(c):
+        def forced(body, bb):
+            t = body.term(bb)
+            if t["k"] != "switch" or t["discr_ty"] != "bool":
+                return None
+            e = flow.expr_of(body, t["discr"], bb)
+            neg = False
+            while e[0] == "un" and e[1] == "Not":
+                neg = not neg
+                e = e[2]
+            if e[0] == "bin" and e[1] in ("Gt", "Ge", "Lt", "Le", "Eq", "Ne") and e[3][0] == "const" and isinstance(e[3][1], int) and not isinstance(e[3][1], bool) and e[2][0] != "const":
+                # which local is compared? only i32 values (the counters) are evaluated
+                ty = None
+                for s_ in body.blocks[bb]["s"]:
+                    if s_[0] == "=" and s_[2][0] == "bin" and s_[2][1] == e[1]:
+                        ty = s_[2][4]
+                if ty is None:
+                    dl = op_local(t["discr"])
+                    for d_ in body.defs().get(dl, []):
+                        if d_[0] == "stmt" and d_[4][0] == "bin":
+                            ty = d_[4][4]
+                if ty and "i32" in ty:
+                    k = e[3][1]
+                    v = {"Gt": c > k, "Ge": c >= k, "Lt": c < k, "Le": c <= k, "Eq": c == k, "Ne": c != k}[e[1]]
+                    if neg:
+                        v = not v
+                    zero = [x for vv, x in t["targets"] if vv == "0"]
+                    if zero:
+                        return t["otherwise"] if v else zero[0]
+            return None
+        import pathsens
+        return pathsens.reachable_under(M, forced, track_bools=True)
+
+    reach = {c: reach_with(c) for c in SAMPLES}
+    pushes_ = [bb for bb, t in M.calls() if "callee" in t and callee(t).endswith("Vec::<T, A>::push")]
     for i, bi in enumerate(dec, 1):
-        # the decrement subtracts the constant 1
         subs = [s_ for s_ in M.blocks[bi]["s"] if s_[0] == "=" and s_[2][0] == "bin" and s_[2][1] in ("SubWithOverflow", "Sub") and "i32" in s_[2][4]]
         by1 = bool(subs) and all(flow.expr_of(M, s_[2][3], bi) == ("const", 1) for s_ in subs)
         rep.check("C09.e", f"decrement-by-one/{i}", by1, where=span_str(subs[0][3]) if subs else M.loc(), what="a keep counter is decremented by exactly 1 per counted period")
-        ok_gt = only_via(M, bi, counter_cmp("Gt", 0), True)
+        got = {c: (bi in reach[c]) for c in SAMPLES}
+        ok_gt = all(got[c] == (c > 0) for c in SAMPLES)
         rep.check("C09.e", f"decrement-iff-positive/{i}", ok_gt, where=span_str(subs[0][3]) if subs else M.loc(),
                   what="the counter is decremented exactly when it is > 0 (negative = unlimited stays untouched, the last remaining count is used up)" if ok_gt else
-                       "the decrement is not guarded by `counter > 0` (a different threshold keeps or drops one period too many)")
-        ok_ne = only_via(M, bi, counter_cmp("Ne", 0), True)
-        rep.check("C09.e", f"counted-iff-nonzero/{i}", ok_ne, where=span_str(subs[0][3]) if subs else M.loc(), what="a period is counted (reason recorded, counter used) only while its counter is non-zero")
+                       f"the decrement does not happen exactly for counter > 0 (reachable for counter = {[c for c in SAMPLES if got[c]]}): a period too many or too few is kept")
+    okp = any(all((pb in reach[c]) == (c != 0) for c in SAMPLES) for pb in pushes_)
+    rep.check("C09.e", "counted-iff-nonzero", okp, where=M.loc(), what="a period's reason is recorded exactly while its counter is non-zero (0 = off, negative = unlimited)" if okp else
+              "no reason push is reachable exactly for counter != 0")
     # the within rule compares snapshot time + span against the newest snapshot's time, in that direction
     cmpc = [(bb, t) for bb, t in M.calls() if "callee" in t and re.search(r"PartialOrd(<.*>)?(>)?::(gt|ge|lt|le)$", callee(t) + " " + callee_decl(t)) and "Zoned" in (callee(t) + " ".join(t.get("gargs") or []))]
     okw = False
